@@ -9,11 +9,21 @@ From JP Require Import Base Json PyStr Syntax Eval Pointer Rfc6901 PointerDomain
    its value in the document, and its path is the RFC 9535 normalized path of that location *)
 Theorem C03_location :
   forall (E : env) rf rs (p : segs) (d ctx : json) (ms : list jmatch) (m : jmatch),
+    wf_json d = true ->
     e_root E = [36%N] -> top_nokeys p = true ->
     finditer E rf rs (mkPath false p) d ctx = Ok ms -> In m ms ->
     node_at d (m_parts m) = Some (m_val m) /\ m_path m = normpath (m_parts m).
-Proof. exact LocationProofs.location. Qed.
+Proof. exact LocationProofs.location_partial. Qed.
 Print Assumptions C03_location.
+
+(* [wf_json d] (member names pairwise distinct in every object - true of every Python dict) is
+   needed: on a value with a repeated member name the statement fails *)
+Theorem C03_location_without_wf_refuted :
+  ~ (forall (E : env) rf rs (p : segs) (d ctx : json) (ms : list jmatch) (m : jmatch),
+       e_root E = [36%N] -> top_nokeys p = true ->
+       finditer E rf rs (mkPath false p) d ctx = Ok ms -> In m ms ->
+       node_at d (m_parts m) = Some (m_val m) /\ m_path m = normpath (m_parts m)).
+Proof. exact LocationProofs.location_refuted. Qed.
 
 (* the path is syntactically a normalized path, whatever the names contain *)
 Theorem C03_valid : forall (l : loc), valid_normpath (normpath l) = true.
